@@ -25,9 +25,10 @@
 EXTENDS Search, SequencesExt, Json, IOUtils
 
 CONSTANTS MaxLen,      \* messages per mailbox (<= 3)
+          Buckets,     \* work units per mailbox (only affects TLC's parallelism)
           Tier         \* "quick" | "thorough": which part of the space is emitted deep
 
-VARIABLES mi, p, ph
+VARIABLES mi, fmb, p, ph, bk
 
 D == 8803    \* 7-Feb-1994 as a day number (days since 1-Jan-1970)
 
@@ -134,13 +135,14 @@ OddSetLeaves == {<<"SEQ", Set1(3, 2)>>, <<"SEQ", Set1(Star, 1)>>,
 Leaves == Nullary \cup KwLeaves \cup DateLeaves \cup SizeLeaves \cup StrLeaves
           \cup SetLeaves \cup OddSetLeaves
 
-FMbs == [i \in DOMAIN MailboxSeq |-> MemoMb(FoldMb(Realise(MailboxSeq[i])), StrLeaves)]
+FMb(i) == MemoMb(FoldMb(Realise(MailboxSeq[i])), StrLeaves)
+AllFMbs == [i \in DOMAIN MailboxSeq |-> FMb(i)]
 
 Core == {<<"SEEN">>, <<"DELETED">>, <<"NEW">>, <<"SINCE", D>>, <<"SENTON", D>>,
          <<"LARGER", 700>>, <<"SUBJECT", "qzsub">>, <<"SEQ", Set1(1, 1)>>,
          <<"UID", Set1(3, 5)>>}
-Core2 == {<<"SEEN">>, <<"SINCE", D>>, <<"BODY", "qzbody">>, <<"UID", Set1(3, 5)>>,
-          <<"KEYWORD", "k1">>}
+Core2 == {<<"SEEN">>, <<"SINCE", D>>, <<"BODY", "qzbody">>, <<"UID", Set1(3, 5)>>}
+         \cup (IF Tier = "quick" THEN {} ELSE {<<"KEYWORD", "k1">>, <<"SMALLER", 700>>})
 
 Depth1(L, C) == {Not(l) : l \in L} \cup {Or(a, b) : a \in L, b \in C}
                 \cup {And2(a, b) : a \in L, b \in C}
@@ -160,6 +162,7 @@ LawTriples == {<<t[1], t[2], LawImage(t[1], t[2])>> :
 ---------------------------------------------------------------------------
 (* the laws, checked for every <<mailbox, program>> *)
 
+ShapeLaws == {"OrComm", "AndComm", "DeMorganOr", "DeMorganAnd"}
 ReverseSet(s) == [k \in DOMAIN s |-> <<s[k][2], s[k][1]>>]
 
 LawsAt(q, mb) ==
@@ -170,7 +173,7 @@ LawsAt(q, mb) ==
        /\ den \subseteq all
        /\ den = {i \in all : Eval(q, mb[i], ctx)}                    \* Coincide
        /\ Den(Not(q), mb) = all \ den                                \* Complement
-       /\ \A law \in Laws : LawApplies(law, q) =>
+       /\ \A law \in (IF q \in Shallow THEN Laws ELSE ShapeLaws) : LawApplies(law, q) =>
               /\ LawRel(law, q, LawImage(law, q))
               /\ Den(LawImage(law, q), mb) = den                     \* algebra
        /\ (q[1] = "OR") => den = Den(q[2], mb) \cup Den(q[3], mb)
@@ -183,15 +186,17 @@ LawsAt(q, mb) ==
                               \E i \in all : mb[i].uid = u /\ Eval(q, mb[i], ctx)}
        /\ Cardinality(UidDen(q, mb)) = Cardinality(den)
 
-LawsHold == ph = 1 => LawsAt(p, FMbs[mi])
+LawsHold == ph = 1 => LawsAt(p, fmb)
 
 TypeOK == /\ mi \in DOMAIN MailboxSeq
           /\ ph \in {0, 1}
+          /\ bk \in 0..(Buckets - 1)
 
 (* every key separates something somewhere in the space (non-vacuity) *)
 Trivial == {<<"ALL">>, <<"KEYWORD", "k2">>, <<"SUBJECT", "">>, <<"BODY", "qzsub">>,
             <<"SEQ", Set1(1, Star)>>, <<"SEQ", Set1(Star, 1)>>, <<"UID", Set1(7, 9)>>}
 NonVacuous ==
+    LET FMbs == AllFMbs IN    \* evaluated once here (TLC does not cache it)
     /\ \A l \in Leaves \ Trivial :
           /\ \E i \in DOMAIN FMbs : Den(l, FMbs[i]) # {}
           /\ \E i \in DOMAIN FMbs : Den(l, FMbs[i]) # DOMAIN FMbs[i]
@@ -221,12 +226,17 @@ ASSUME IF "SEARCH_SPACE" \in DOMAIN IOEnv
        THEN JsonSerialize(IOEnv.SEARCH_SPACE, Space) ELSE TRUE
 
 ---------------------------------------------------------------------------
+(* one initial state per <<mailbox, bucket of programs>> (work units for   *)
+(* TLC's workers), one successor per program of the bucket                 *)
+ProgramSeq == SetToSeq(Programs)
 Init == /\ mi \in DOMAIN MailboxSeq
+        /\ fmb = FMb(mi)
         /\ p = <<"ALL">>
         /\ ph = 0
+        /\ bk \in 0..(Buckets - 1)
 Next == /\ ph = 0
         /\ ph' = 1
-        /\ p' \in Programs
-        /\ UNCHANGED mi
-Spec == Init /\ [][Next]_<<mi, p, ph>>
+        /\ \E i \in {j \in DOMAIN ProgramSeq : j % Buckets = bk} : p' = ProgramSeq[i]
+        /\ UNCHANGED <<mi, fmb, bk>>
+Spec == Init /\ [][Next]_<<mi, fmb, p, ph, bk>>
 =============================================================================
